@@ -26,6 +26,12 @@ def m_route_once_nilcheck(r):
         "\tr.strOnce.Do(func() {\n\t\tvar buf bytes.Buffer\n\t\tfor _, s := range r.Segments {\n\t\t\tbuf.WriteString(s.String())\n\t\t}\n\t\tr.str = buf.String()\n\t})\n",
         "\tif r.str == \"\" {\n\t\tvar buf bytes.Buffer\n\t\tfor _, s := range r.Segments {\n\t\t\tbuf.WriteString(s.String())\n\t\t}\n\t\tr.str = buf.String()\n\t}\n")
 
+def m_injector_memo(r):
+    # injector.Value memoises the implementor it found for an interface type (writes the shared Flame-level map while serving)
+    rep(r + "/inject/inject.go",
+        "\t\t\tif k.Implements(t) {\n\t\t\t\tval = v\n\t\t\t\tbreak\n\t\t\t}\n\t\t}\n",
+        "\t\t\tif k.Implements(t) {\n\t\t\t\tval = v\n\t\t\t\tbreak\n\t\t\t}\n\t\t}\n\t\tif val.IsValid() {\n\t\t\tinj.values[t] = val\n\t\t}\n")
+
 def m_append_handlers(r):
     rep(r + "/flame.go", "\tc := newContext(w, r, params, hs, urlPath)\n",
         "\tf.handlers = append(f.handlers[:len(f.handlers):len(f.handlers)], handlers...)[:len(f.handlers)]\n\tc := newContext(w, r, params, hs, urlPath)\n")
@@ -49,7 +55,7 @@ def m_leaf_params(r):
     rep(p, "func (l *placeholderLeaf) match(segment string, params Params, header http.Header) bool {\n\tif !l.matchHeader(header) {\n\t\treturn false\n\t}\n\tparams[l.bind] = segment\n",
         "func (l *placeholderLeaf) match(segment string, params Params, header http.Header) bool {\n\tif !l.matchHeader(header) {\n\t\treturn false\n\t}\n\tif l.lastParams == nil {\n\t\tl.lastParams = make(Params)\n\t}\n\tl.lastParams[l.bind] = segment\n\tparams[l.bind] = l.lastParams[l.bind]\n")
 
-MUT = {"once_nilcheck": m_once_nilcheck, "route_once_nilcheck": m_route_once_nilcheck, "append_handlers": m_append_handlers, "cache_leaf": m_cache_leaf,
+MUT = {"injector_memo": m_injector_memo, "once_nilcheck": m_once_nilcheck, "route_once_nilcheck": m_route_once_nilcheck, "append_handlers": m_append_handlers, "cache_leaf": m_cache_leaf,
        "pool_contexts": m_pool_contexts, "leaf_params": m_leaf_params}
 
 if __name__ == "__main__":
